@@ -567,6 +567,13 @@ func genC14(w *bufio.Writer, r *rng, thorough bool) {
 		ops = append(ops, "c:"+labelHex("x"))
 		emit(w, "tr %s %s", labelHex("acc"), strings.Join(ops, ";"))
 	}
+	// long CHALLENGE labels (the label is absorbed, and re-absorbed with the challenge), followed by further challenges
+	for _, ll := range []int{100, 992, 993, 1023, 1024, 1025, 2048, 5000} {
+		long := hx(r.bytes(ll))
+		emit(w, "tr %s c:%s;c:%s;s:%s:%s;c:%s", labelHex("t"), long, labelHex("x"), labelHex("y"), r.scalar(), labelHex("x"))
+		emit(w, "tr %s m:%s:%s;c:%s;c:%s;c:%s", labelHex("t"), labelHex("L"), hx(r.bytes(40)), long, long, labelHex("x"))
+		emit(w, "tr %s d:%s;c:%s;d:%s;c:%s", labelHex("t"), long, labelHex("x"), long, long)
+	}
 	// long pending buffers: many appends before one challenge
 	for _, total := range []int{1000, 1024, 1025, 2047, 4096, 5000, 20000} {
 		var ops []string
